@@ -426,7 +426,7 @@ func ip(i int64) *int64   { return &i }
 func main() {
 	w := vh.New("C25", "From Verif Require Import Base.Prelude Model.C25.", "case", "check")
 	initMenu()
-	w.Rule = "histories of create(status ''/active/inactive; every|cron|none; offset) / update(status, every, cron, offset, or nothing) / delete / restart(NotifyCoordinatorOfExisting on a fresh scheduler, page size 2) through the real CoordinatingTaskService+Coordinator; hand-picked regressions first, then random histories of length 1-9 over ids 1-4; n>=300000 adds ALL 13^5 histories of length 5 over a 13-operation alphabet on tasks 1,2 (shorter ones are their prefixes: every prefix is observed). Non-trivial: some status update occurs or an active and an inactive task coexist. Distinct: distinct Gallina terms."
+	w.Rule = "histories of create(status ''/active/inactive; every|cron|none; offset) / update(status, every, cron, offset, or nothing) / delete / restart(NotifyCoordinatorOfExisting on a fresh scheduler, page size 2) through the real CoordinatingTaskService+Coordinator; hand-picked regressions first, then random histories of length 1-9 over ids 1-4; n>=150000 adds ALL 11^5 histories of length 5 over an 11-operation alphabet on tasks 1,2 (create active/inactive, status on/off of task 1 and 2, schedule change of task 1 and 2, delete 1, delete 2, restart) (shorter ones are their prefixes: every prefix is observed). Non-trivial: some status update occurs or an active and an inactive task coexist. Distinct: distinct Gallina terms."
 	var rc jcase
 	if w.ReplayCase(&rc) {
 		run(w, &rc)
@@ -450,14 +450,13 @@ func main() {
 		c := jcase{Ops: h}
 		run(w, &c)
 	}
-	if w.N >= 300000 { // exhaustive: all histories of length 5 over a 13-op alphabet on tasks 1 and 2
+	if w.N >= 150000 { // exhaustive: all histories of length 5 over an 11-op alphabet on tasks 1 and 2
 		alpha := []jop{
 			{Op: "create", Status: &act, Every: sp("1m")},
 			{Op: "create", Status: &inact, Every: sp("1m")},
 			{Op: "update", ID: 1, Status: &act}, {Op: "update", ID: 1, Status: &inact},
 			{Op: "update", ID: 2, Status: &act}, {Op: "update", ID: 2, Status: &inact},
 			{Op: "update", ID: 1, Every: sp("1h")}, {Op: "update", ID: 2, Cron: sp("0 * * * *"), Offset: ip(5)},
-			{Op: "update", ID: 1}, {Op: "update", ID: 2},
 			{Op: "delete", ID: 1}, {Op: "delete", ID: 2},
 			{Op: "restart"},
 		}
